@@ -44,9 +44,28 @@ def hostile_schemas(wd):
     return out
 
 
-def op_lines(db):
+def op_lines(db, dumps=None, bi=0, quick=False):
     """every public operation, by name, on the base's objects: (opid, command)"""
     out = [("master", "master"), ("names", "names")]
+    # the high level operations once more in the form the extracted model can run (schema given as a dump of the
+    # intact file's db.Schema); they are compared only when the damaged file still yields that schema
+    for name, t in db.tables.items():
+        dump = (dumps or {}).get((bi, name))
+        if dump is None:
+            continue
+        cols = hl.names([hl.unq(c) for c in t["cols"]])
+        out.append(("%s/hschema" % name, "schema %s" % hl.hx(name)))
+        out += [("%s/hselect" % name, "hselect %s %s 0 %s" % (dump, hl.hx(name), cols)), ("%s/hselect3" % name, "hselect %s %s 3 %s" % (dump, hl.hx(name), cols))]
+        if t["kind"] != "norowid":
+            out += [("%s/hselectrowid" % name, "hselectrowid %s %s 5 %s" % (dump, hl.hx(name), cols)), ("%s/hpk" % name, "hpkselect %s %s i5 %s" % (dump, hl.hx(name), cols))]
+        else:
+            out += [("%s/hpk" % name, "hpkselect %s %s i5,t61 %s" % (dump, hl.hx(name), cols)), ("%s/hpk1" % name, "hpkselect %s %s i5 %s" % (dump, hl.hx(name), cols))]
+        for iname, ix in list(db.indexes.items())[:(2 if quick else None)]:
+            if ix["table"] != name:
+                continue
+            out += [("%s/hiselect" % iname, "hiselect %s %s %s %s" % (dump, hl.hx(name), hl.hx(iname), cols)),
+                    ("%s/hiselecteq" % iname, "hiselecteq %s %s %s i5 %s" % (dump, hl.hx(name), hl.hx(iname), cols)),
+                    ("%s/hiselecteqt" % iname, "hiselecteq %s %s %s t6d %s" % (dump, hl.hx(name), hl.hx(iname), cols))]
     for name, t in db.tables.items():
         cols = ",".join(hl.unq(c) for c in t["cols"] if " " not in c)
         out += [("%s/columns" % name, "columns %s" % name), ("%s/select" % name, "select %s 0 %s" % (name, cols)), ("%s/select2" % name, "select %s 2 %s" % (name, cols))]
@@ -72,6 +91,7 @@ def op_lines(db):
     return out
 
 LOW = ("master", "scan ", "iscan ", "imin ", "ieq ", "irange ", "rowid ")
+HIGH = ("hselect ", "hselectrowid ", "hiselect ", "hiselecteq ", "hpkselect ")
 
 
 def hash_even(cid):
@@ -89,7 +109,7 @@ def run_batch(tag, cases, want_model):
             lines.append(("%s|%s|t" % (cid, opid), "clock"))
     res, impl, _ = ops.run_cmds(tag, lines, timeout=600, sides=("impl",))
     # the model runs the low level operations of a subset of the files (want_model(cid))
-    mlines = [(c, l) for c, l in lines if want_model(c.split("|")[0]) and (l.startswith("db ") or l.startswith(LOW))]
+    mlines = [(c, l) for c, l in lines if want_model(c.split("|")[0]) and (l.startswith("db ") or l.startswith(LOW) or l.startswith(HIGH))]
     res2, _, model = ops.run_cmds(tag + "-m", mlines, timeout=900, sides=("model",))
     res["model"] = res2["model"]
     return res, impl, model, lines
@@ -103,6 +123,7 @@ def check(run):
     shutil.rmtree(wd, ignore_errors=True)
     os.makedirs(wd, exist_ok=True)
     bases = small_bases(run, wd)
+    dumps = hl.schemas(bases, "c05-schema")
     known = core.load_known("C05")
     dist = {"mutants": 0, "kinds": {}, "outcomes": {"open err": 0, "all ops ok": 0, "some op err": 0}, "ops": 0, "hostile_schemas": 0, "corpus": 0, "journals": 0}
     cases = []          # (cid, path, oplist, description)
@@ -126,7 +147,7 @@ def check(run):
     # 2. mutants
     nmut = 260 if quick else 12000
     for bi, db in enumerate(bases):
-        opl = op_lines(db)
+        opl = op_lines(db, dumps, bi, quick)
         for m in range(nmut // len(bases)):
             data, what = mutate.mutate(rng, db.data, db.page_size)
             path = os.path.join(wd, "m-%d-%d.db" % (bi, m))
@@ -138,7 +159,7 @@ def check(run):
     # 2b. directed pointer corruptions of every interior page
     dist["directed"] = 0
     for bi, db in enumerate(bases):
-        opl = op_lines(db)
+        opl = op_lines(db, dumps, bi, quick)
         for m, (data, what) in enumerate(mutate.directed_pointers(db.data, db.page_size)):
             if quick and "all pointers" not in what and "right-most" not in what:
                 continue
@@ -149,10 +170,13 @@ def check(run):
     # run in batches so that a crash or a hang costs one batch; low level operations also through the model
     desc = {c[0]: c for c in cases}
     B = 40
-    for s in range(0, len(cases), B):
+    want = (lambda cid: True) if not quick else (lambda cid: not cid.startswith(("m/", "d/")) or hash_even(cid))
+    from concurrent.futures import ThreadPoolExecutor
+    starts = list(range(0, len(cases), B))
+    with ThreadPoolExecutor(max_workers=6) as ex:
+        results = list(ex.map(lambda s: run_batch("c05-%d" % (s // B), [(c, p, o) for c, p, o, _ in cases[s:s + B]], want), starts))
+    for s, (res, impl, model, lines) in zip(starts, results):
         batch = cases[s:s + B]
-        res, impl, model, lines = run_batch("c05-%d" % (s // B), [(c, p, o) for c, p, o, _ in batch],
-                                            (lambda cid: True) if not quick else (lambda cid: not cid.startswith(("m/", "d/")) or hash_even(cid)))
         irc, iout, ierr = res["impl"]
         if irc != 0:
             last = [l for l in iout.split("\n") if l.startswith("# ")]
@@ -204,6 +228,29 @@ def check(run):
                         shutil.copyfile(path, keep)
                         run.violation("model and implementation differ on a corrupted file: %s (%s)" % (cmd[:60], what),
                                       {"no_failing_input_found": True, "broken": "correspondence on corrupt input", "db": keep, "command": cmd, "model": m[-3:], "impl": out[-3:]})
+            # high level operations through the model, where the damaged file still gives the intact file's schema
+            for opid, cmd in opl:
+                if not cmd.startswith(HIGH):
+                    continue
+                key = "%s|%s" % (cid, opid)
+                out, m = impl.get(key), model.get(key)
+                tname = bytes.fromhex(cmd.split(" ")[2]).decode()
+                sch = impl.get("%s|%s/hschema" % (cid, tname)) or ["?"]
+                if out is None or m is None or not op[0].startswith("open ok") or sch[0] != "schema %s plain=true" % cmd.split(" ")[1]:
+                    continue
+                if any("PANIC" in l for l in out):
+                    continue        # reported above
+                dist["high_level_model_cases"] = dist.get("high_level_model_cases", 0) + 1
+                norm = lambda ls: [("end err" if l.startswith("end err") else l) for l in ls if not l.startswith("locks ")]
+                if any("PANIC" in l or "DIVERGE" in l for l in m):
+                    run.violation("the model of the high level API panics / runs out of fuel where the implementation does not: %s (%s)" % (cmd.split(" ")[0], what),
+                                  {"no_failing_input_found": True, "broken": "model totality vs implementation (high level)", "db": path, "command": cmd, "model": m[-3:], "impl": out[-3:]})
+                elif norm(m) != norm(out):
+                    keep = os.path.join(core.VERIF, "replays", "C05-" + os.path.basename(path))
+                    os.makedirs(os.path.dirname(keep), exist_ok=True)
+                    shutil.copyfile(path, keep)
+                    run.violation("model and implementation of %s differ on a corrupted file (%s)" % (cmd.split(" ")[0], what),
+                                  {"no_failing_input_found": True, "broken": "correspondence on corrupt input (high level)", "db": keep, "command": cmd, "model": m[-4:], "impl": out[-4:]})
             run.nontrivial(cid)
             dist["outcomes"]["open err" if not op[0].startswith("open ok") else "some op err" if anyerr else "all ops ok"] += 1
     # 3. journals: any bytes next to a valid database
